@@ -11,7 +11,7 @@ PROPS = {
     "C02": dict(verus=["U-SM", "U-TS"], kani=[], bounded=["U-PARSE-B"], findings=[]),
     "C03": dict(verus=["U-SM", "U-TBSV"], kani=["U-TBS"], bounded=["U-PARSE-B"], findings=[]),
     "C04": dict(verus=["U-NTH", "U-DHS"], kani=["U-SEL", "U-STK"], bounded=["U-PARSE-B"], findings=[]),
-    "C05": dict(verus=["U-TS", "U-DHS", "U-TXT", "U-TBSV", "U-MEMV", "U-ENC", "U-HVECV"], kani=["U-HVEC", "U-STK"], bounded=[], findings=[]),
+    "C05": dict(verus=["U-TS", "U-DHS", "U-TXT", "U-TBSV", "U-MEMV", "U-ENC", "U-HVECV", "U-SSINK"], kani=["U-HVEC", "U-STK"], bounded=[], findings=[]),
     "C06": dict(verus=["U-SM", "U-TS"], kani=[], bounded=["U-PARSE-B"], findings=[]),
     "C07": dict(verus=["U-TS", "U-SER"], kani=[], bounded=["U-PARSE-B"], findings=[]),
     "C08": dict(verus=["U-ESCQ"], kani=["U-ESC"], bounded=["U-PARSE-B"], findings=[]),
@@ -19,9 +19,9 @@ PROPS = {
     "C10": dict(verus=["U-TS", "U-MEMV"], kani=["U-MEM"], bounded=["U-PARSE-B"], findings=[]),
     "C11": dict(verus=["U-TS"], kani=[], bounded=["U-PARSE-B"], findings=[("F-C11-1", "verus", "U-TS", "F-C11-1")]),
     "C12": dict(verus=["U-TS"], kani=[], bounded=["U-PARSE-B"], findings=[]),
-    "C13": dict(verus=["U-TS", "U-TXT", "U-ENC"], kani=["U-ESC"], bounded=["U-PARSE-B"], findings=[]),
+    "C13": dict(verus=["U-TS", "U-TXT", "U-ENC", "U-SSINK"], kani=["U-ESC"], bounded=["U-PARSE-B"], findings=[]),
     "C14": dict(verus=["U-SM", "U-TS", "U-SER", "U-TXT"], kani=[], bounded=["U-PARSE-B"], findings=[]),
-    "C15": dict(verus=["U-SM", "U-TS", "U-SER", "U-NTH", "U-ESCQ", "U-DHS", "U-TXT", "U-TBSV", "U-MEMV", "U-ENC", "U-HVECV"], kani=["U-MEM", "U-TBS", "U-HVEC", "U-ESC"], bounded=[], findings=[]),
+    "C15": dict(verus=["U-SM", "U-TS", "U-SER", "U-NTH", "U-ESCQ", "U-DHS", "U-TXT", "U-TBSV", "U-MEMV", "U-ENC", "U-HVECV", "U-SSINK"], kani=["U-MEM", "U-TBS", "U-HVEC", "U-ESC"], bounded=[], findings=[]),
     "C16": dict(verus=["U-SM", "U-TBSV"], kani=["U-SEL", "U-STK"], bounded=["U-PARSE-B"], findings=[]),
 }
 
